@@ -46,13 +46,14 @@ DEPTH_DOC = {
 
 MUTS = {
     "tree": ["annot_value_edit", "node_annot_value_edit", "edge_length", "node_label", "tree_label", "annot_add", "annot_drop", "annot_change", "node_annot_add", "comment",
-             "encode", "attr", "reroot", "prune", "collapse", "add_child", "rotate", "relabel_taxon", "ns_add", "edge_annot_add", "is_rooted"],
+             "encode", "attr", "reroot", "prune", "collapse", "add_child", "rotate", "relabel_taxon", "ns_add", "edge_annot_add", "is_rooted",
+             "replace_taxon", "recopy", "recopy"],
     "treelist": ["annot_value_edit", "edge_length", "node_label", "list_label", "append", "remove", "annot_add", "reroot", "prune", "relabel_taxon", "ns_add",
-                 "tree_annot_add", "comment"],
-    "matrix": ["annot_value_edit", "set_cell", "append_cell", "del_sequence", "new_sequence", "mat_label", "annot_add", "relabel_taxon", "ns_add", "seq_annot"],
+                 "tree_annot_add", "comment", "replace_taxon", "recopy"],
+    "matrix": ["annot_value_edit", "column_label", "cell_annot", "set_cell", "append_cell", "del_sequence", "new_sequence", "mat_label", "annot_add", "relabel_taxon", "ns_add", "seq_annot"],
     "namespace": ["annot_value_edit", "add_taxon", "remove_taxon", "relabel_taxon", "sort", "ns_label", "annot_add", "taxon_annot"],
 }
-SHARED_TOUCHING = set(["relabel_taxon", "ns_add", "taxon_annot", "add_taxon", "remove_taxon", "sort", "ns_label"])
+SHARED_TOUCHING = set(["relabel_taxon", "ns_add", "taxon_annot", "add_taxon", "remove_taxon", "sort", "ns_label", "replace_taxon"])
 
 
 def depth_of(route, kind):
@@ -143,6 +144,18 @@ class C12(Machine):
             cls = dendropy.DnaCharacterMatrix if cfg["dt"] == "dna" else dendropy.StandardCharacterMatrix
             m = cls.from_dict(init["rows"], taxon_namespace=ns)
             m.label = "mat"
+            if cfg["extra_attr"] or cfg["annotated"]:
+                # column definitions shared by the cells of a column, and a cell-level annotation
+                from dendropy.datamodel.charmatrixmodel import CharacterType
+                ncol = max([len(m[t]) for t in m] or [0])
+                for c in range(ncol):
+                    m.character_types.append(CharacterType(label="col%d" % c, state_alphabet=m.default_state_alphabet))
+                for t in m:
+                    seq = m[t]
+                    for c in range(len(seq)):
+                        seq.set_character_type_at(c, m.character_types[c])
+                    if len(seq):
+                        seq.annotations_at(0).add_new("cellnote", [1])
             if cfg["annotated"]:
                 m.annotations.add_new("gene", "cox1")
                 m.annotations.add_new("partitions", [[0, 1], [2]])
@@ -202,7 +215,8 @@ class C12(Machine):
             if _nested(src) != _nested(cp):
                 rec.violation("NOT_EQUAL_AT_COPY", base, "extracted tree differs in structure/lengths/labels/taxa: %s vs %s" % (_nested(src), _nested(cp)))
                 return
-        elif depth != "shallow" or True:
+        elif depth != "shallow":
+            # (documented shallow copies: only membership is compared, in _disjoint)
             if d_src != d_cp:
                 rec.violation("NOT_EQUAL_AT_COPY", dict(base, where=_where(canon.first_difference(d_src, d_cp))),
                               "copy differs from its source at copy time: %s" % canon.first_difference(d_src, d_cp))
@@ -232,8 +246,36 @@ class C12(Machine):
             rec.step_index = i
             rec.steps += 1
             m = st["m"]
-            if m in SHARED_TOUCHING and depth in ("ns", "ns_members", "extract"):
-                continue        # touches the region the route is documented to share
+            if m == "recopy" and depth == "extract":
+                continue        # extraction restructures (suppresses unifurcations): only the pristine tree is compared
+            if m == "recopy":
+                # a further copy of the (by now mutated) source through the same route: same obligations
+                try:
+                    cp, ns2 = self._copy(cfg, src, ns)
+                except Exception as e:
+                    import traceback
+                    fn = [f.name for f in traceback.extract_tb(e.__traceback__) if "dendropy" in f.filename]
+                    rec.violation("COPY_FAILED", dict(base, exception=type(e).__name__, function=fn[-1] if fn else "harness"),
+                                  "second %s of a %s (after %s) raised %s: %s" % (route, kind, names, type(e).__name__, e))
+                    return
+                d_src, ids_src = self._dump(src, depth, ns, None)
+                d_cp, ids_cp = self._dump(cp, depth, ns, ns2)
+                if depth == "extract":
+                    if _nested(src) != _nested(cp):
+                        rec.violation("NOT_EQUAL_AT_COPY", dict(base, where="second_copy"), "second extracted tree differs from its source")
+                        return
+                elif d_src != d_cp:
+                    rec.violation("NOT_EQUAL_AT_COPY", dict(base, where="second_copy:" + _where(canon.first_difference(d_src, d_cp))),
+                                  "a copy taken after %s differs from its source: %s" % (names[-4:], canon.first_difference(d_src, d_cp)))
+                    return
+                bad = self._disjoint(src, cp, ns, depth, ids_src, ids_cp)
+                if bad:
+                    rec.violation("SHARED_MUTABLE_STATE", dict(base, what="second_copy:" + bad[0]), "copy taken after %s: %s: %s" % (names[-4:], DEPTH_DOC[depth], bad[1]))
+                    return
+                rec.probe("recopied")
+                names.append(("src", "recopy"))
+                continue
+            shared_touch = m in SHARED_TOUCHING and depth in ("ns", "ns_members", "extract")
             side = st["side"]
             target, other = (src, cp) if side == "src" else (cp, src)
             tns = target if kind == "namespace" else target.taxon_namespace
@@ -245,6 +287,9 @@ class C12(Machine):
                 rec.probe("mutation_raised_history_abandoned")     # the mutators are other properties' subject
                 return
             if not done:
+                continue
+            if shared_touch:
+                names.append((side, m))     # touches the region the route is documented to share: nothing to compare
                 continue
             after, _ = self._dump(other, depth, ons if other is cp and ns2 is not None else ns, ns2 if other is cp else None)
             rec.ev("mut", side, m)
@@ -352,7 +397,7 @@ class C12(Machine):
                     v.append(st["k"] % 5)
                     return True
             return False
-        if kind == "treelist" and m in ("edge_length", "node_label", "reroot", "prune", "tree_annot_add"):
+        if kind == "treelist" and m in ("edge_length", "node_label", "reroot", "prune", "tree_annot_add", "replace_taxon"):
             if len(obj) == 0:
                 return False
             tree = obj[k2 % len(obj)]
@@ -422,6 +467,18 @@ class C12(Machine):
                 ns[k % len(ns)].label = "relabelled%d" % (k % 5)
             elif m == "ns_add":
                 ns.new_taxon(label="new%d" % (k % 9))
+            elif m == "replace_taxon":
+                leaves = [nd for nd in nodes if not nd._child_nodes and nd.taxon is not None]
+                if not leaves:
+                    return False
+                nd = leaves[k % len(leaves)]
+                old = nd.taxon
+                nd.taxon = ns.new_taxon(label="repl%d" % (k % 97))
+                if not any(x.taxon is old for x in nodes):
+                    try:
+                        ns.remove_taxon(old)
+                    except ValueError:
+                        pass
             else:
                 return False
             return True
@@ -469,6 +526,17 @@ class C12(Machine):
                 if not cands:
                     return False
                 mtx.new_sequence(cands[k % len(cands)])
+            elif m == "column_label":
+                if not mtx.character_types:
+                    return False
+                mtx.character_types[k % len(mtx.character_types)].label = "relabelled-%s" % st["s"]
+            elif m == "cell_annot":
+                if not taxa:
+                    return False
+                seq = mtx[taxa[k % len(taxa)]]
+                if len(seq) == 0:
+                    return False
+                seq.annotations_at(k2 % len(seq)).add_new("c", st["v"])
             elif m == "mat_label":
                 mtx.label = st["s"]
             elif m == "annot_add":
